@@ -111,6 +111,20 @@ func (i c30Inspector) HasAttributes(_ context.Context, ia addr.IA, _ trust.Attri
 	return false, nil
 }
 
+// c30SlowResolver delays the resolution of the segment requests by a drawn (virtual) duration, as
+// a slow or retried lookup at the path service would: segments may expire in the meantime.
+type c30SlowResolver struct {
+	inner segfetcher.Resolver
+	delay *time.Duration
+}
+
+func (r c30SlowResolver) Resolve(ctx context.Context, reqs segfetcher.Requests, refresh bool) (segfetcher.Segments, segfetcher.Requests, error) {
+	if *r.delay > 0 {
+		time.Sleep(*r.delay)
+	}
+	return r.inner.Resolve(ctx, reqs, refresh)
+}
+
 type c30NoReq struct{}
 
 func (c30NoReq) Request(context.Context, segfetcher.Requests) <-chan segfetcher.ReplyOrErr {
@@ -180,7 +194,7 @@ func TestC30(t *testing.T) {
 	defer rec.Flush(t)
 	rec.Assume("all segments are available locally (no remote fetch); the path database holds one copy per hop sequence, the newest", "revocation cache: in-memory implementation")
 	rec.Require("lookup_local", "lookup_wildcard_local_isd", "lookup_wildcard_remote_isd", "lookup_core_dst", "lookup_noncore_dst", "src_core", "src_noncore", "revocation_active", "revocation_expired", "revocation_superseded",
-		"path_suppressed_by_revocation", "path_suppressed_by_expiry", "paths_returned", "single_core_isd", "multi_core_isd")
+		"path_suppressed_by_revocation", "path_suppressed_by_expiry", "slow_fetch", "older_revocation_after_newer", "paths_returned", "single_core_isd", "multi_core_isd")
 	rapid.Check(t, func(rt *rapid.T) { bubbleCheck(t, rt, func(fatalf func(string, ...any)) { c30Case(rt, rec, fatalf) }) })
 }
 
@@ -241,9 +255,10 @@ func c30Case(rt *rapid.T, rec *evid.Rec, fatalf func(string, ...any)) {
 		}
 	}
 	rc := memrevcache.New()
+	var fetchDelay time.Duration
 	splitter := &segfetcher.MultiSegmentSplitter{LocalIA: src.IA, Core: src.Core, Inspector: c30Inspector{topo}}
 	p := &segfetcher.Pather{IA: src.IA, MTU: src.MTU, NextHopper: c30NH{}, RevCache: rc,
-		Fetcher: &segfetcher.Fetcher{Resolver: segfetcher.NewResolver(db, rc, c30Local{}), Requester: c30NoReq{}, PathDB: db, QueryInterval: time.Minute, Metrics: c30Metrics},
+		Fetcher: &segfetcher.Fetcher{Resolver: c30SlowResolver{segfetcher.NewResolver(db, rc, c30Local{}), &fetchDelay}, Requester: c30NoReq{}, PathDB: db, QueryInterval: time.Minute, Metrics: c30Metrics},
 		Splitter: splitter}
 	revs := map[snet.PathInterface]c30Rev{}
 	active := func(i snet.PathInterface) bool {
@@ -273,7 +288,7 @@ func c30Case(rt *rapid.T, rec *evid.Rec, fatalf func(string, ...any)) {
 	nontrivial := false
 	steps := rapid.IntRange(3, 12).Draw(rt, "steps")
 	for st := 0; st < steps; st++ {
-		switch rapid.SampledFrom([]string{"lookup", "lookup", "lookup", "revoke", "advance"}).Draw(rt, "step") {
+		switch rapid.SampledFrom([]string{"lookup", "lookup", "lookup", "revoke", "revoke_out_of_order", "advance"}).Draw(rt, "step") {
 		case "revoke":
 			if len(allIfs) == 0 {
 				continue
@@ -295,6 +310,33 @@ func c30Case(rt *rapid.T, rec *evid.Rec, fatalf func(string, ...any)) {
 				}
 			}
 			history = append(history, fmt.Sprintf("revoke %s ts=-%v ttl=%ds", i, time.Since(ts), ttl))
+		case "revoke_out_of_order":
+			// an older, shorter-lived revocation of an interface arrives after a newer one: it must
+			// not replace it; then the clock moves past the older one's end
+			var act []snet.PathInterface
+			for _, i := range allIfs {
+				if active(i) {
+					act = append(act, i)
+				}
+			}
+			if len(act) == 0 {
+				continue
+			}
+			i := act[rapid.IntRange(0, len(act)-1).Draw(rt, "reRevoked")]
+			ts := revs[i].ts.Add(-time.Duration(rapid.IntRange(1, 20).Draw(rt, "olderBy")) * time.Second)
+			ttl := rapid.IntRange(10, 40).Draw(rt, "olderTTL")
+			if _, err := rc.Insert(ctx, &path_mgmt.RevInfo{IfID: i.ID, RawIsdas: i.IA, RawTimestamp: uint32(ts.Unix()), RawTTL: uint32(ttl)}); err != nil {
+				fatalf("harness: %v", err)
+			}
+			labels["older_revocation_after_newer"] = true
+			history = append(history, fmt.Sprintf("older revocation of %s (ts -%v, ttl %ds) after the active one", i, time.Since(ts), ttl))
+			if rapid.Bool().Draw(rt, "waitPastOlder") {
+				d := time.Until(ts.Add(time.Duration(ttl)*time.Second)) + 2*time.Second
+				if d > 0 && time.Now().Add(d).Before(revs[i].exp) {
+					time.Sleep(d)
+					history = append(history, fmt.Sprintf("advance %v", d))
+				}
+			}
 		case "advance":
 			d := time.Duration(rapid.OneOf(rapid.IntRange(1, 700), rapid.IntRange(600, 21600)).Draw(rt, "advanceSeconds")) * time.Second
 			time.Sleep(d)
@@ -317,8 +359,14 @@ func c30Case(rt *rapid.T, rec *evid.Rec, fatalf func(string, ...any)) {
 			default:
 				dst = topo.ASes[rapid.IntRange(0, len(topo.ASes)-1).Draw(rt, "dst")].IA
 			}
-			now := time.Now()
-			desc := fmt.Sprintf("lookup %s->%s after %v", src.IA, dst, history)
+			fetchDelay = 0
+			if rapid.IntRange(0, 3).Draw(rt, "slowFetch") == 0 {
+				fetchDelay = time.Duration(rapid.OneOf(rapid.IntRange(1, 30), rapid.IntRange(30, 1200)).Draw(rt, "fetchSeconds")) * time.Second
+				labels["slow_fetch"] = true
+			}
+			// the paths are judged at the moment they are handed out
+			now := time.Now().Add(fetchDelay)
+			desc := fmt.Sprintf("lookup %s->%s (fetch takes %v) after %v", src.IA, dst, fetchDelay, history)
 			// ---- requests
 			if dst != src.IA {
 				reqs, err := splitter.Split(ctx, dst)
